@@ -908,8 +908,8 @@ def _alias_map(func):
             cnt[n.id] = cnt.get(n.id, 0) + 1
     for a in stmts_in(func, ast.Assign):
         if len(a.targets) == 1 and isinstance(a.targets[0], ast.Name):
-            impure = any(isinstance(x, (ast.Call, ast.Await, ast.Yield, ast.YieldFrom, ast.NamedExpr, ast.ListComp, ast.SetComp, ast.DictComp,
-                                        ast.GeneratorExp, ast.Lambda)) for x in ast.walk(a.value))
+            from .canon import _is_pure
+            impure = not _is_pure(a.value)
             if not impure and cnt.get(a.targets[0].id) == 1:
                 val[a.targets[0].id] = a.value
     return val
@@ -937,3 +937,135 @@ def xnorm(expr, func, _depth=0):
     x.depth = 0
     e = x.visit(clone(expr))
     return norm(ast.fix_missing_locations(e))
+
+
+def key_function(repo, func, key):
+    """what a `key=` argument computes: (list of normalised element texts of the returned tuple or [text], parameter name) for a lambda,
+    a nested def, a module-level function or a method of the same class (`self.m`); temporaries of that function are expanded.
+    None if it cannot be resolved."""
+    if isinstance(key, ast.Lambda):
+        body, arg, holder = key.body, key.args.args[0].arg, None
+    else:
+        d = None
+        if isinstance(key, ast.Name):
+            for x in ast.walk(func):
+                if isinstance(x, FUNC_TYPES) and x.name == key.id:
+                    d = x
+            if d is None:
+                r = repo.resolve(key)
+                d = repo.def_by_dotted(r) if r else None
+        elif isinstance(key, ast.Attribute) and norm(key.value) == 'self':
+            cls = getattr(repo.enclosing_func(key), '_parent', None)
+            while cls is not None and not isinstance(cls, ast.ClassDef):
+                cls = getattr(cls, '_parent', None)
+            if cls is not None:
+                d = next((x for x in cls.body if isinstance(x, FUNC_TYPES) and x.name == key.attr), None)
+        if d is None or not isinstance(d, FUNC_TYPES):
+            return None
+        eb = effective_body(d)
+        rets = [x for x in eb if isinstance(x, ast.Return)]
+        if len(rets) != 1 or eb[-1] is not rets[0]:
+            return None
+        ps = [a.arg for a in d.args.args if a.arg != 'self']
+        if len(ps) != 1:
+            return None
+        body, arg, holder = rets[0].value, ps[0], d
+    elts = body.elts if isinstance(body, ast.Tuple) else [body]
+    texts = [xnorm(e, holder) if holder is not None else norm(e) for e in elts]
+    return texts, arg
+
+
+# ---------------------------------------------------------------------------- path summaries
+def path_summaries(func, max_paths=200):
+    """What a small loop-free function computes, independent of how it is written: the set of (facts, result) over all paths from the
+    entry to a return/raise/fall-through (no exception edges), where locals bound by plain assignments are expanded symbolically into
+    the expressions they stand for, tests are recorded with their canonical spelling (`x is not None` true == `x is None` false),
+    conditional expressions in a returned value split the path, and a result is the expanded text of the returned expression,
+    'raise <text>' or 'None'.  Returns None when the function has loops/with/try (not summarised) or too many paths."""
+    for n in own_nodes(func):
+        if isinstance(n, (ast.For, ast.AsyncFor, ast.While, ast.Try, ast.Yield, ast.YieldFrom)):
+            return None
+    c = cfg_of(func)
+    out = set()
+    count = [0]
+
+    def clone(e):
+        return ast.parse(ast.unparse(e), mode='eval').body
+
+    def expand(e, env):
+        class _X(ast.NodeTransformer):
+            def visit_Name(self, node):
+                if isinstance(node.ctx, ast.Load) and node.id in env:
+                    return clone(env[node.id])
+                return node
+        return ast.fix_missing_locations(_X().visit(clone(e)))
+
+    def results(e, env, facts):
+        """split conditional expressions at the top of a returned value"""
+        if isinstance(e, ast.IfExp):
+            t = expand(e.test, env)
+            yield from results(e.body, env, facts | {fact_of(t, True)})
+            yield from results(e.orelse, env, facts | {fact_of(t, False)})
+        else:
+            yield facts, norm(expand(e, env))
+
+    def fact_of(t, taken):
+        while isinstance(t, ast.UnaryOp) and isinstance(t.op, ast.Not):
+            t, taken = t.operand, not taken
+        return _test_key(t, taken)
+
+    def dfs(node, env, facts, seen):
+        if count[0] > max_paths:
+            return
+        a = node.ast
+        if node.kind == 'stmt' and isinstance(a, ast.Return):
+            count[0] += 1
+            if a.value is None:
+                out.add((frozenset(facts), 'None'))
+            else:
+                for f2, r in results(a.value, env, frozenset(facts)):
+                    out.add((frozenset(f2), r))
+            return
+        if node.kind == 'stmt' and isinstance(a, ast.Raise):
+            count[0] += 1
+            out.add((frozenset(facts), 'raise ' + (norm(expand(a.exc, env)) if a.exc is not None else '')))
+            return
+        if node is c.exit:
+            count[0] += 1
+            out.add((frozenset(facts), 'None'))
+            return
+        if node.kind == 'stmt' and isinstance(a, ast.Assign) and len(a.targets) == 1 and isinstance(a.targets[0], ast.Name):
+            env = dict(env)
+            env[a.targets[0].id] = expand(a.value, env)
+        elif node.kind == 'with':
+            env = dict(env)
+            for it in a.items:
+                if it.optional_vars is not None:
+                    for x in ast.walk(it.optional_vars):
+                        if isinstance(x, ast.Name):
+                            # `with open(p) as f` : f stands for the context expression (good enough to tell two versions apart)
+                            env[x.id] = expand(it.context_expr, env)
+        elif node.kind == 'stmt' and isinstance(a, (ast.Assign, ast.AugAssign, ast.AnnAssign)):
+            # anything else that binds names forgets what was known about them
+            env = dict(env)
+            for x in ast.walk(a):
+                if isinstance(x, ast.Name) and isinstance(x.ctx, ast.Store):
+                    env.pop(x.id, None)
+        for m, k in node.succ:
+            if k == 'exc' or m.id in seen:
+                continue
+            f2 = facts
+            if node.kind == 'test' and k in ('T', 'F') and a is not None:
+                key = fact_of(expand(a, env), k == 'T')
+                if (key[0], not key[1]) in facts:
+                    continue            # contradicts an earlier test of the same expression
+                f2 = facts | {key}
+            dfs(m, env, f2, seen | {m.id})
+    dfs(c.entry, {}, frozenset(), {c.entry.id})
+    if count[0] > max_paths:
+        return None
+    return out
+
+
+def summary_text(summ):
+    return sorted(('%s => %s' % (' & '.join(('' if v else 'not ') + '(' + t + ')' for t, v in sorted(f)), r)) for f, r in (summ or ()))
